@@ -144,7 +144,44 @@ func genBody(t *rapid.T, depth int) string {
 	return b.String()
 }
 
+// deepText: structures whose analysis time must not grow exponentially with their depth - ranges nested d deep around
+// plain content, and a chain of d templates each calling the next below text that is in error.
+func deepText(t *rapid.T) string {
+	d := rapid.IntRange(20, 45).Draw(t, "depth")
+	var b strings.Builder
+	switch rapid.IntRange(0, 2).Draw(t, "deepkind") {
+	case 0:
+		b.WriteString("<ul>")
+		for i := 0; i < d; i++ {
+			b.WriteString("{{range .L}}")
+		}
+		b.WriteString("<li>{{.}}</li>")
+		for i := 0; i < d; i++ {
+			b.WriteString("{{end}}")
+		}
+		b.WriteString("</ul>")
+	case 1:
+		for i := 0; i < d; i++ {
+			fmt.Fprintf(&b, `{{define "c%d"}}<i>{{template "c%d" .}}</i>{{end}}`, i, i+1)
+		}
+		fmt.Fprintf(&b, `{{define "c%d"}}x{{end}}`, d)
+		b.WriteString(rapid.SampledFrom([]string{`<a b"c>`, `<a href="{{.V}}`, `{{if .C}}<b title="{{end}}`, ``}).Draw(t, "rooterr") + `{{template "c0" .}}`)
+	default:
+		for i := 0; i < d; i++ {
+			b.WriteString("{{if .C}}{{with .V}}")
+		}
+		b.WriteString("<p>{{.}}</p>")
+		for i := 0; i < d; i++ {
+			b.WriteString("{{end}}{{end}}")
+		}
+	}
+	return b.String()
+}
+
 func genText(t *rapid.T) TextCase {
+	if rapid.IntRange(0, 39).Draw(t, "deep") == 0 {
+		return TextCase{Text: evid.BStr(deepText(t)), Data: rapid.SampledFrom(dataSels).Draw(t, "data")}
+	}
 	var b strings.Builder
 	nd := rapid.IntRange(0, 2).Draw(t, "ndef")
 	for i := 0; i < nd; i++ {
